@@ -155,12 +155,16 @@ def check(case, ctx):
         return fails
 
     kind, f = ROWS[row]
-    W = np.array(case["W"], dtype=float)
+    W = gen.layout(np.array(case["W"], dtype=float), case.get("order"))
     ci = np.array(case["ci"])
     m = case["m"]
     ci2 = _relabel(ci, m)
-    o1 = ctx.call(f, W.copy(), ci.copy())
-    o2 = ctx.call(f, W.copy(), ci2.copy())
+    if case.get("float_labels"):
+        # label vectors produced by the library itself are often float arrays holding integers
+        ci2 = ci2.astype(float)
+        ctx.label("float-labels")
+    o1 = ctx.call(f, gen.layout(W.copy(), case.get("order")), ci.copy())
+    o2 = ctx.call(f, gen.layout(W.copy(), case.get("order")), ci2.copy())
     d, how = compare.outcomes_equal(o1, o2, RT, AT)
     ctx.notes[how] += 1
     if how == "both_raise":
@@ -207,7 +211,7 @@ def cases(draw, rows):
     if row == "ci2ls/ls2ci":
         return {"row": row, "ci": ci, "m": m}
     W = draw(_matrix(ROWS[row][0], n))
-    return {"row": row, "W": W, "ci": ci, "m": m}
+    return {"row": row, "W": W, "ci": ci, "m": m, "order": draw(st.sampled_from(gen.ORDERS)), "float_labels": draw(st.integers(0, 3)) == 0}
 
 
 def units(tier):
